@@ -28,13 +28,22 @@ Theorem C06_family_field_name_total : forall name, legal_ident name = true ->
   exists o, family_field_name name = Ok o /\ legal_ident o = true.
 Proof. exact family_field_name_total. Qed.
 
-Theorem C06_combined_ident_total : forall ids, ids <> [] -> Forall (fun y => legal_ident y = true) ids ->
-  exists o, combined_ident ids = Ok o /\ legal_ident o = true.
+Theorem C06_combined_ident_total : forall ids, ids <> [] -> Forall (fun y => legal_input y = true) ids ->
+  exists o, combined_ident ids = Ok o /\ legal_input o = true.
 Proof. exact combined_ident_total. Qed.
 
-Theorem C06_combined_ident_internal_error_iff_empty : forall ids, Forall (fun y => legal_ident y = true) ids ->
+Theorem C06_combined_ident_plain : forall x y r, Forall (fun y => legal_input y = true) (x :: y :: r) ->
+  exists o, combined_ident (x :: y :: r) = Ok o /\ legal_ident o = true.
+Proof. exact combined_ident_plain. Qed.
+
+Theorem C06_combined_ident_internal_error_iff_empty : forall ids, Forall (fun y => legal_input y = true) ids ->
   (combined_ident ids = InternalError <-> ids = []).
 Proof. exact combined_ident_internal_error_iff_empty. Qed.
+
+(* fixed defect: before the repair a raw identifier in a non-first position of a destructuring pattern panicked the macro *)
+Theorem C06_combined_ident_old_panics_on_raw :
+  exists ids, Forall (fun y => legal_input y = true) ids /\ combined_ident_old ids = Panic /\ exists o, combined_ident ids = Ok o.
+Proof. exact combined_ident_old_panics_on_raw. Qed.
 
 (* ---- (c, name level) distinct methods get distinct enum variants ----
    Full-strength statement (FALSE of the faithful model, see the two _refuted theorems):
@@ -141,6 +150,8 @@ Print Assumptions C06_script_field_total.
 Print Assumptions C06_family_field_name_total.
 Print Assumptions C06_combined_ident_total.
 Print Assumptions C06_combined_ident_internal_error_iff_empty.
+Print Assumptions C06_combined_ident_plain.
+Print Assumptions C06_combined_ident_old_panics_on_raw.
 Print Assumptions C06_script_field_injective_guarded.
 Print Assumptions C06_script_variants_nodup.
 Print Assumptions C06_script_variants_nodup_or_diag.
